@@ -28,7 +28,10 @@ MAX_REPORTS = 4      # replay files written per predicate for unexplained failur
 def run(ctx):
     quick = ctx.quick()
     nsim = int(os.environ.get("VERIF_C05_NSIM") or (300 if quick else 4000))
-    with concurrent.futures.ThreadPoolExecutor(4) as ex:
+    with concurrent.futures.ThreadPoolExecutor(6) as ex:
+        # ClockAhead family: the post-commit CAS re-stamp (correctVersionAheadOfCAS) as a second storage step of a request
+        f_mca = ex.submit(model_check_tagged, ctx, "MC_DocUpdate_ahead.cfg" if quick else "MC_DocUpdate_ahead_thorough.cfg", "MCahead")
+        f_beha = ex.submit(gen_behaviours, ctx, "Beh_DocUpdate_ahead.cfg", None, "BehAhead")
         f_mc = ex.submit(model_check, ctx, SPEC, "MC_DocUpdate", "MC_DocUpdate.cfg" if quick else "MC_DocUpdate_thorough.cfg", 5400)
         f_beh = ex.submit(gen_behaviours, ctx, "Beh_DocUpdate.cfg", None, "Beh")
         # two mixes: SimNext (one successor per action kind: requests start late, parents created by other writers) and the
@@ -36,12 +39,14 @@ def run(ctx):
         f_sim = ex.submit(gen_behaviours, ctx, "Sim_DocUpdate.cfg", nsim // 2, "Sim")
         f_sim2 = ex.submit(gen_behaviours, ctx, "Sim_DocUpdate_burst.cfg", nsim - nsim // 2, "SimBurst")
         mc, beh_all, beh_sim = f_mc.result(), f_beh.result(), f_sim.result() + f_sim2.result()
+        f_mca.result()
+        beh_ahead = select_ahead(ctx, f_beha.result(), other=40 if quick else 400)
     ctx.cov["behaviour_action_mix"] = action_mix(beh_sim)
     ctx.cov["exhaustive"] = True
     final_coverage(ctx, mc)
     wit = deviation_witnesses(ctx, mc, per_class=25 if quick else 300)
     behs, seen = [], set()
-    for src, lst in (("all2w", beh_all), ("sim", beh_sim), ("witness", wit)):
+    for src, lst in (("all2w", beh_all), ("sim", beh_sim), ("witness", wit), ("ahead", beh_ahead)):
         for b in lst:
             k = json.dumps({"conf": b["conf"], "steps": b["steps"]}, sort_keys=True)
             if k not in seen:
@@ -59,6 +64,43 @@ def run(ctx):
         "the sync function accepts every write; pushed revisions add exactly one new revision; each writer's body is distinct",
         "with conflicts disallowed a pushed revision always names a parent (a parentless push onto a tombstone is a sanctioned second root)",
         "storage = Rosmar (the only storage available in this sandbox); its WriteUpdateWithXattrs loop is part of what is bound"]
+
+
+def model_check_tagged(ctx, cfg, tag):
+    """vlib.core.model_check with its own staging directory (runs concurrently with the main exhaustive check)."""
+    r = tlc(ctx, SPEC, "MC_DocUpdate", cfg, timeout=5400, tag=tag)
+    if r.inv_violated:
+        raise Inconclusive("model counterexample in MC_DocUpdate/%s: %s violated (candidate only)\n%s" % (
+            cfg, r.inv_violated, "\n".join("\n".join(st["_txt"]) for st in r.error_trace[-2:])))
+    if r.distinct == 0:
+        raise Inconclusive("TLC reported no states for %s\n%s" % (cfg, r.out[-800:]))
+    ctx.cov["states"] += r.distinct
+    ctx.cov["transitions"] += r.generated
+    log("  TLC %-28s %-22s %9d distinct %10d generated depth %3d  %.1fs" % ("MC_DocUpdate", cfg, r.distinct, r.generated, r.depth, r.wall))
+    return r
+
+
+def in_window(b):
+    """another writer commits between some writer's commit and that writer's post-commit re-stamp."""
+    waiting = set()
+    for st in b["steps"]:
+        if st["a"] == "Cas" and st["e"] in ("committed", "restamp"):
+            if waiting - {st["w"]}:
+                return True
+            if st["e"] == "restamp":
+                waiting.add(st["w"])
+        elif st["a"] == "Restamp":
+            waiting.discard(st["w"])
+    return False
+
+
+def select_ahead(ctx, behs, other):
+    """the directed family: every 2-writer behaviour with a commit inside a re-stamp window, plus a seeded sample of the rest."""
+    win = [b for b in behs if in_window(b)]
+    rest = sorted((b for b in behs if not in_window(b)), key=lambda b: json.dumps(b, sort_keys=True))
+    random.Random(ctx.seed).shuffle(rest)
+    ctx.cov["ahead_family"] = {"all": len(behs), "commit_inside_restamp_window": len(win), "sampled_others": min(other, len(rest))}
+    return win + rest[:other]
 
 
 def gen_behaviours(ctx, cfg, num, tag):
@@ -206,6 +248,8 @@ def measure(ctx, behs, per):
         for r in rs:
             if r["a"] == "Abort":
                 st["aborted"] += 1
+            if r["a"] == "Restamp":
+                st["restamps"] = st.get("restamps", 0) + 1
             if r["a"] == "Cas":
                 pc = r["pc"][r["w"] - 1]
                 st["max_attempts"] = max(st["max_attempts"], r.get("att", 0))
